@@ -4,7 +4,7 @@ from pyvc.contracts import Registry
 
 def build():
     R = Registry()
-    from . import theory, c_cropping_batch, c_cropping_reap, c_stats, c_runner
+    from . import theory, c_cropping_batch, c_cropping_reap, c_stats, c_runner, c_prepare
     theory.install(R)
     c_cropping_batch.install(R)
     c_cropping_reap.install(R)
@@ -13,6 +13,7 @@ def build():
     c_stats.install(R)
     c_runner.install(R)
     c_runner.install_core(R)
+    c_prepare.install(R)
     # calls dropped as no-ops (DESIGN 2.2) -- every dropped call site is listed in the evidence
     R.inert |= {"print", "warnings.warn", "progbar", "time.sleep", "logger.setLevel", "logging.getLogger",
                 "sys.stderr.flush"}
